@@ -10,7 +10,8 @@ each linking Section separately (`Link.linkStep` reads the target, rewrites the 
 in place with `updAt`), which is what the correspondence run checks on whole documents.
 
 Side conditions: `wfSec cv t` (unique sibling names in the target), `EqRefl cv` (`v == v`),
-`noClash l t` (the property's "shared no child name"), `noFill l t` (delimits the known finding).
+`noClash l t` (the property's "shared no child name"), `notMerged l` (the linking Section is in
+the state of a built, loaded or cleaned Section: no `_merged`, nothing on record as filled in).
 -/
 import OdmlModel.Model.Link
 import OdmlModel.Proofs.Link
@@ -84,15 +85,32 @@ theorem link_adds_only_general (cv : Conv V) (r : Ref) (l t : Sec V) (hwf : wfSe
 
 /-! ## 2. Cleaning removes exactly the copies -/
 
-/-- `unmerge` after resolving (no shared child name): all copies are gone, the own children are
-    as before and in place, the Section is no longer merged; link and include are kept. What is
-    **not** undone: a definition / reference filled from the target. -/
+/-- what `unmerge` leaves of a definition / reference `merge` looked at, when nothing was on
+    record before: the own one — set or unset, equal to the target's or not -/
+theorem unfill_fill (a b : Option Str) : unfill (fillText a b) (recFill a b none) = a := by
+  cases a with
+  | some x => rfl
+  | none =>
+    cases b with
+    | none => rfl
+    | some y =>
+      cases y with
+      | nil => rfl
+      | cons c cs => simp [fillText, recFill, unfill]
+
+/-- `unmerge` after resolving (no shared child name), for a linking Section in any state: all
+    copies are gone, the own children are as before and in place, the Section is no longer
+    merged and nothing is on record any more; link and include are kept; of definition and
+    reference what the merge filled in (or an earlier merge left on record) is taken back. -/
 theorem unmerge_restores (cv : Conv V) (heq : EqRefl cv) (r : Ref) (l t : Sec V)
     (hwf : wfSec cv t = true) (hnc : noClash l t = true) :
     unmerge cv (merge cv false r l t).1 t =
-      .mk { l.attrs with definition := fillText l.attrs.definition t.attrs.definition
-                         reference := fillText l.attrs.reference t.attrs.reference
-                         merged := none } l.props l.secs := by
+      .mk { l.attrs with
+              definition := unfill (fillText l.attrs.definition t.attrs.definition)
+                                   (recFill l.attrs.definition t.attrs.definition l.attrs.filledDef)
+              reference := unfill (fillText l.attrs.reference t.attrs.reference)
+                                  (recFill l.attrs.reference t.attrs.reference l.attrs.filledRef)
+              filledDef := none, filledRef := none, merged := none } l.props l.secs := by
   rw [merge_noClash cv r l t hwf hnc]
   have hnc' := (noClash_iff l t).1 hnc
   cases t with
@@ -104,38 +122,43 @@ theorem unmerge_restores (cv : Conv V) (heq : EqRefl cv) (r : Ref) (l t : Sec V)
     rw [unmergeSecs_clones cv heq r ts l.secs hwf.2.2 hnc'.1,
         unmergeProps_copies cv heq tp l.props hwf.1 hnc'.2]
 
-/-- The full-strength restoration law for one linking Section. -/
+/-- The full-strength restoration law for one linking Section: `l` is any Section that is not
+    merged (as built, loaded or cleaned), `t` any target it shares no child name with. -/
 def Restores (cv : Conv V) : Prop :=
-  ∀ (r : Ref) (l t : Sec V), wfSec cv t = true → noClash l t = true → l.attrs.merged = none →
+  ∀ (r : Ref) (l t : Sec V), wfSec cv t = true → noClash l t = true → notMerged l = true →
     unmerge cv (merge cv false r l t).1 t = l
 
-theorem fillText_noFill (a b : Option Str) (h : (a.isSome || b.isNone || b == some []) = true) :
-    fillText a b = a := by
-  cases a with
-  | some x => rfl
-  | none =>
-    cases b with
-    | none => rfl
-    | some y =>
-      cases y with
-      | nil => rfl
-      | cons c cs => simp at h
+theorem notMerged_iff (l : Sec V) :
+    notMerged l = true ↔
+      l.attrs.merged = none ∧ l.attrs.filledDef = none ∧ l.attrs.filledRef = none := by
+  unfold notMerged
+  simp only [Bool.and_eq_true, Option.isNone_iff_eq_none, and_assoc]
 
-/-- Clean after finalize restores the linking Section exactly — provided nothing was filled:
-    each of definition / reference is set in the linking Section or unset in the target. -/
-theorem clean_after_link_partial (cv : Conv V) (heq : EqRefl cv) (r : Ref) (l t : Sec V)
-    (hwf : wfSec cv t = true) (hnc : noClash l t = true) (hnf : noFill l t = true)
-    (hm : l.attrs.merged = none) : unmerge cv (merge cv false r l t).1 t = l := by
+/-- **Clean after finalize restores the linking Section exactly** — whatever definition and
+    reference the linking Section and the target have: an unset one is filled in by the merge
+    and taken back by `unmerge`, a set one is kept also when it equals the target's. (Before
+    the fix of finding `C12/definition-reference-filled-not-restored` this held only where
+    nothing was filled: `Link.noFill`.) -/
+theorem clean_after_link (cv : Conv V) (heq : EqRefl cv) (r : Ref) (l t : Sec V)
+    (hwf : wfSec cv t = true) (hnc : noClash l t = true) (hm : notMerged l = true) :
+    unmerge cv (merge cv false r l t).1 t = l := by
   rw [unmerge_restores cv heq r l t hwf hnc]
-  unfold noFill at hnf
-  simp only [Bool.and_eq_true] at hnf
-  rw [fillText_noFill _ _ hnf.1, fillText_noFill _ _ hnf.2]
+  obtain ⟨h1, h2, h3⟩ := (notMerged_iff l).1 hm
+  rw [h2, h3, unfill_fill, unfill_fill]
   cases l with
   | mk a ps ss =>
-    simp only [Sec.attrs_mk, Sec.props_mk, Sec.secs_mk] at hm ⊢
+    simp only [Sec.attrs_mk, Sec.props_mk, Sec.secs_mk] at h1 h2 h3 ⊢
     cases a; simp_all
 
-/-- witness of the known finding: the target has a definition, the linking Section has none -/
+/-- The restoration law holds of the code, for every value interpretation with `v == v`. -/
+theorem clean_finalize_restores (cv : Conv V) (heq : EqRefl cv) : Restores cv :=
+  fun r l t hwf hnc hm => clean_after_link cv heq r l t hwf hnc hm
+
+theorem eqRefl_convC : EqRefl convC := by
+  intro v
+  cases v <;> simp [convC, eqC, Val.halves]
+
+/-- witness of the former finding: the target has a definition, the linking Section has none -/
 def wLinker : Sec Val :=
   .mk { name := ['l'], type := ['t'], definition := none, reference := none,
         link := some ['/', 'x'], incl := none, merged := none } [] []
@@ -143,41 +166,71 @@ def wTarget : Sec Val :=
   .mk { name := ['x'], type := ['t'], definition := some ['D'], reference := none,
         link := none, incl := none, merged := none } [] []
 
-/-- The full statement is false of the code: the definition filled by `merge` stays. -/
-theorem clean_finalize_counterexample : ¬ Restores convC := by
-  intro h
-  have h1 := h { url := none, path := [['x']] } wLinker wTarget (by decide) (by decide) (by decide)
-  have h2 : (unmerge convC (merge convC false { url := none, path := [['x']] } wLinker wTarget).1
-      wTarget).attrs.definition = wLinker.attrs.definition := by rw [h1]
-  revert h2
-  decide
+/-- On the witness of the former finding: while resolved the linking Section shows the
+    target's definition (and has it on record), after `unmerge` it is the Section it was. -/
+theorem filled_definition_taken_back :
+    (merge convC false { url := none, path := [['x']] } wLinker wTarget).1.attrs.definition
+      = some ['D'] ∧
+    (merge convC false { url := none, path := [['x']] } wLinker wTarget).1.attrs.filledDef
+      = some ['D'] ∧
+    unmerge convC (merge convC false { url := none, path := [['x']] } wLinker wTarget).1 wTarget
+      = wLinker :=
+  ⟨by decide, by decide,
+   clean_after_link convC eqRefl_convC _ wLinker wTarget (by decide) (by decide) (by decide)⟩
 
-/-- Repeated cycles: whatever the first cycle left filled, every further finalize / clean cycle
-    restores the linking Section exactly (no condition on definition / reference). -/
+/-- An edit between finalize and clean is not destroyed: a definition / reference that is no
+    longer the one `merge` filled in is kept by `unmerge` (any Section `m`, any target). -/
+theorem clean_keeps_user_edit (cv : Conv V) (m t : Sec V) :
+    (∀ v, m.attrs.filledDef = some v → m.attrs.definition ≠ some v →
+      (unmerge cv m t).attrs.definition = m.attrs.definition) ∧
+    (∀ v, m.attrs.filledRef = some v → m.attrs.reference ≠ some v →
+      (unmerge cv m t).attrs.reference = m.attrs.reference) ∧
+    (m.attrs.filledDef = none → (unmerge cv m t).attrs.definition = m.attrs.definition) ∧
+    (m.attrs.filledRef = none → (unmerge cv m t).attrs.reference = m.attrs.reference) := by
+  cases t with
+  | mk ta tp ts =>
+    unfold unmerge
+    simp only [Sec.attrs_mk]
+    refine ⟨?_, ?_, ?_, ?_⟩
+    · intro v hv hne; rw [hv]; simp [unfill, hne]
+    · intro v hv hne; rw [hv]; simp [unfill, hne]
+    · intro hv; rw [hv]; rfl
+    · intro hv; rw [hv]; rfl
+
+/-- `unmerge` re-establishes the state the restoration law starts from. -/
+theorem unmerge_notMerged (cv : Conv V) (m t : Sec V) : notMerged (unmerge cv m t) = true := by
+  cases t with
+  | mk ta tp ts => unfold unmerge; rfl
+
+/-- Also with shared child names and in strict mode: whenever a merge succeeds, `unmerge` gives
+    the linking Section its own attributes back (name, type, definition, reference, link,
+    include); only for the children the restoration law needs `noClash`. -/
+theorem clean_restores_attrs_general (cv : Conv V) (k : Bool) (r : Ref) (l t : Sec V)
+    (hok : (merge cv k r l t).2 = .ok) (hm : notMerged l = true) :
+    (unmerge cv (merge cv k r l t).1 t).attrs = l.attrs := by
+  have hsh := merge_ok_shape cv k r l t hok
+  rw [hsh.2.2.2]
+  obtain ⟨h1, h2, h3⟩ := (notMerged_iff l).1 hm
+  cases t with
+  | mk ta tp ts =>
+    unfold unmerge
+    simp only [Sec.attrs_mk, h2, h3, unfill_fill]
+    cases l with
+    | mk a ps ss =>
+      simp only [Sec.attrs_mk] at h1 h2 h3 ⊢
+      cases a; simp_all
+
+/-- Repeated cycles: from any state of the linking Section (merged or not, whatever is on
+    record), after one finalize / clean cycle every further cycle restores it exactly. -/
 theorem cycle_stable (cv : Conv V) (heq : EqRefl cv) (r : Ref) (l t : Sec V)
     (hwf : wfSec cv t = true) (hnc : noClash l t = true) :
     let l1 := unmerge cv (merge cv false r l t).1 t
     unmerge cv (merge cv false r l1 t).1 t = l1 := by
   simp only
-  rw [unmerge_restores cv heq r l t hwf hnc]
-  apply clean_after_link_partial cv heq r _ t hwf
-  · rw [noClash_iff] at hnc ⊢; exact hnc
-  · unfold noFill
-    simp only [Sec.attrs_mk, Bool.and_eq_true]
-    constructor
-    · cases h1 : l.attrs.definition with
-      | some x => simp [fillText]
-      | none =>
-        cases h2 : t.attrs.definition with
-        | none => simp [fillText]
-        | some y => cases y <;> simp [fillText]
-    · cases h1 : l.attrs.reference with
-      | some x => simp [fillText]
-      | none =>
-        cases h2 : t.attrs.reference with
-        | none => simp [fillText]
-        | some y => cases y <;> simp [fillText]
-  · rfl
+  apply clean_after_link cv heq r _ t hwf
+  · rw [unmerge_restores cv heq r l t hwf hnc]
+    rw [noClash_iff] at hnc ⊢; exact hnc
+  · exact unmerge_notMerged cv _ t
 
 /-! ## 3. `Section.clean()` on a resolved linking Section -/
 
@@ -210,14 +263,14 @@ theorem cleanSec_noLinks (cv : Conv V) (deref : Ref → Option (Sec V)) :
     (own) children changes nothing. -/
 theorem clean_sec_restores (cv : Conv V) (heq : EqRefl cv) (deref : Ref → Option (Sec V))
     (n : Nat) (r : Ref) (l t : Sec V) (hwf : wfSec cv t = true) (hnc : noClash l t = true)
-    (hnf : noFill l t = true) (hm : l.attrs.merged = none) (hown : noLinksList l.secs = true)
+    (hm : notMerged l = true) (hown : noLinksList l.secs = true)
     (hd : deref r = some t) :
     cleanSec cv deref (n + 1) (merge cv false r l t).1 = l := by
   have hmg : (merge cv false r l t).1.attrs.merged = some r := by
     rw [merge_noClash cv r l t hwf hnc]; rfl
   unfold cleanSec
   simp only [hmg, hd]
-  rw [clean_after_link_partial cv heq r l t hwf hnc hnf hm]
+  rw [clean_after_link cv heq r l t hwf hnc hm]
   have : ∀ ls : List (Sec V), noLinksList ls = true → ls.map (cleanSec cv deref n) = ls := by
     intro ls
     induction ls with
@@ -284,10 +337,8 @@ def eLinker : Sec Val :=
       [{ pA with name := ['o', '1'] }] [.mk (attrs0 ['o', '2'] ['u']) [] []]
 
 example : wfSec convC eTarget = true ∧ noClash eLinker eTarget = true ∧
-    noFill eLinker eTarget = true ∧ noLinksList eLinker.secs = true ∧
+    notMerged eLinker = true ∧ noLinksList eLinker.secs = true ∧
     (merge convC false default eLinker eTarget).1.secs.length = 2 := by decide
-example : EqRefl convC := by
-  intro v
-  cases v <;> simp [convC, eqC, Val.halves]
+example : EqRefl convC := eqRefl_convC
 
 end C12
